@@ -621,6 +621,7 @@ CACHES_ALL = [
 ]
 CACHES_MAIN = [(None, ()), (("in_memory", "md5"), ()), (("filesystem", "md5"), ()), (("filesystem", "hash"), ("a",))]
 CACHES_TWO = [(None, ()), (("filesystem", "md5"), ("a",))]
+TWO_MODEL_FAMILY = True     # configurations with two indexes (different embedding models) over one cache store
 
 
 def multisets(pool, n):
@@ -709,6 +710,8 @@ def tasks(tier):
                                 "max_choices": 600, "dev_iter": True, "max_dev": 40, "big": True, "time_limit": 60})
     # two indexes with different embedding models and the same cache settings: requests of both, all orders
     pool2 = [B_A, G_ABA, S_A] if tier == "quick" else [B_A, B_E, G_ABA, G_EB, S_A]
+    if not TWO_MODEL_FAMILY:
+        pool2 = []
     for x in pool2:
         for y in pool2:
             for second_round in (False, True):
